@@ -170,6 +170,8 @@ def clone_value(v):
     """Copy/move semantics: aggregates are copied structurally, references are shared."""
     if isinstance(v, Struct):
         c = Struct(v.name, [clone_value(x) for x in v.fields])
+        if hasattr(v, "disc"):
+            c.disc, c.enum = v.disc, getattr(v, "enum", None)
         if hasattr(v, "cenv"):
             c.cenv = v.cenv
         if hasattr(v, "cfn"):
@@ -260,6 +262,24 @@ class ZipIter(IterBase):
             return None
         return Tuple([x, y])
 
+    def next_back(self, it):
+        ra, rb = remaining_len(self.a), remaining_len(self.b)
+        if ra is None and rb is None:
+            raise Unsupported("Zip::next_back over iterators of unknown length")
+        # std trims the longer side to the common length first (an unbounded range counts as longer)
+        if ra is not None and rb is not None:
+            for _ in range(ra - rb):
+                self.a.next_back(it)
+            for _ in range(rb - ra):
+                self.b.next_back(it)
+        elif ra is None or rb is None:
+            raise Unsupported("Zip::next_back with an unbounded side")
+        x = self.a.next_back(it)
+        y = self.b.next_back(it)
+        if x is None or y is None:
+            return None
+        return Tuple([x, y])
+
     def clone(self):
         return ZipIter(self.a.clone(), self.b.clone())
 
@@ -329,7 +349,7 @@ def remaining_len(itr):
     if isinstance(itr, ListIter):
         return len(itr.items) - itr.lo - itr.back
     if isinstance(itr, RangeIter):
-        return max(itr.hi - itr.lo, 0)
+        return None if itr.hi is None else max(itr.hi - itr.lo, 0)
     if isinstance(itr, (EnumerateIter, MapIter, ClonedIter, RevIter)):
         return remaining_len(itr.inner)
     if isinstance(itr, SkipIter):
@@ -610,9 +630,9 @@ class EnumerateIter(IterBase):
         self.inner, self.i = inner, 0
 
     def next_back(self, it):
-        if not isinstance(self.inner, SliceIter):
-            raise Unsupported("Enumerate::next_back over a non-slice iterator")
-        remaining = self.inner.hi - self.inner.lo
+        remaining = remaining_len(self.inner)
+        if remaining is None:
+            raise Unsupported("Enumerate::next_back over an iterator of unknown length")
         x = self.inner.next_back(it)
         if x is None:
             return None
@@ -639,13 +659,15 @@ class RangeIter(IterBase):
         self.lo, self.hi = lo, hi  # half-open
 
     def next(self, it):
-        if self.lo >= self.hi:
+        if self.hi is not None and self.lo >= self.hi:
             return None
         v = self.lo
         self.lo += 1
         return v
 
     def next_back(self, it):
+        if self.hi is None:
+            raise Unsupported("next_back of an unbounded range")
         if self.lo >= self.hi:
             return None
         self.hi -= 1
@@ -659,6 +681,8 @@ def into_iter(v):
         return RangeIter(v.fields[0], v.fields[1])
     if isinstance(v, Struct) and v.name == "RangeInclusive" and all(isinstance(x, int) for x in v.fields[:2]):
         return RangeIter(v.fields[0], v.fields[1] + 1)
+    if isinstance(v, Struct) and v.name == "RangeFrom" and isinstance(v.fields[0], int):
+        return RangeIter(v.fields[0], None)  # a.. (unbounded; only ever zipped / taken)
     if isinstance(v, (VecV, Array)):
         return VecIntoIter(v.fields)
     if isinstance(v, (SliceRef,)):
@@ -694,7 +718,7 @@ class CrateIter(IterBase):
 
 
 # ------------------------------------------------------------------ type patterns for dispatch
-WILDCARD = re.compile(r"^(T|U|I|Scalar|Self|__\w+)$")
+WILDCARD = re.compile(r"^(T|U|I|Scalar|Self|__\w+|[A-Z][A-Z0-9]?|impl .*)$")  # generic type parameters (one or two capitals) and `impl Trait`
 
 
 def strip_path(name):
@@ -800,6 +824,10 @@ def value_matches(v, pat):
             return isinstance(v, VecV)
         if base == "Option":
             return isinstance(v, Opt)
+        if isinstance(v, EnumVal):
+            return v.name == base
+        if isinstance(v, Struct) and getattr(v, "enum", None) is not None:
+            return v.enum == base
         if isinstance(v, Struct):
             if v.name != base:
                 return False
@@ -863,6 +891,7 @@ class Program:
             self.by_method.setdefault(seg, []).append(f)
             f.param_pats = [parse_type(t) for (_, t) in f.params]
         self.struct_fields = self._scan_structs()
+        self.enums = self._scan_enums()
 
     def _scan_structs(self):
         """struct name -> [field names] from the Rust sources (declaration order = MIR field index)."""
@@ -876,12 +905,55 @@ class Program:
         out.setdefault("Range", ["start", "end"])
         return out
 
+    def _scan_enums(self):
+        """crate enums: name -> {variant: (discriminant, [field names] | None for tuple/unit variants)} (declaration order; explicit
+        discriminants `= k` honoured)"""
+        out = {}
+        for text in self.sources.values():
+            for m in re.finditer(r"^\s*(?:pub(?:\([^)]*\))?\s+)?enum (\w+)(?:<[^>]*>)?\s*\{(.*?)\n\s*\}", text, re.S | re.M):
+                body = re.sub(r"//[^\n]*", "", m.group(2))
+                body = re.sub(r"#\[[^\]]*\]", "", body)
+                variants, k = {}, 0
+                for part in split_top_commas(body):
+                    part = part.strip()
+                    if not part:
+                        continue
+                    vm = re.match(r"^(\w+)\s*(\{.*\}|\(.*\))?\s*(?:=\s*(-?\d+))?$", part, re.S)
+                    if not vm:
+                        variants = None
+                        break
+                    if vm.group(3) is not None:
+                        k = int(vm.group(3))
+                    fields = None
+                    if vm.group(2) and vm.group(2).startswith("{"):
+                        fields = re.findall(r"(\w+)\s*:", vm.group(2))
+                    variants[vm.group(1)] = (k, fields)
+                    k += 1
+                if variants:
+                    out[m.group(1)] = variants
+        return out
+
     def find(self, name_suffix):
         """free function by (suffix of) its path, e.g. 'f_dx', 'spline::segment'."""
         c = [f for f in self.funcs if (f.name == name_suffix or f.name.endswith("::" + name_suffix))
              and "{closure" not in f.name]
         if len(c) != 1:
             raise Unsupported("function %r: %d candidates" % (name_suffix, len(c)))
+        return c[0]
+
+    def find_kernel(self, name, module, param_types, ret):
+        """A helper by name, or -- when a refactor renamed it -- the single function of `module` with this signature
+        (param_types: list of substrings of the parameter types in order; ret: substring of the return type)."""
+        try:
+            return self.find(name)
+        except Unsupported:
+            pass
+        # (rustc prints trimmed paths: a function whose name is unique in the crate appears without its module)
+        c = [f for f in self.funcs if "{closure" not in f.name and "<impl" not in f.name and "promoted[" not in f.name
+             and len(f.params) == len(param_types) and all(t in f.params[i][1] for i, t in enumerate(param_types))
+             and ret in (f.ret or "")]
+        if len(c) != 1:
+            raise Unsupported("kernel %r: not found by name, %d candidates by signature" % (name, len(c)))
         return c[0]
 
     def find_method(self, method, args, impl_hint=None):
@@ -1088,7 +1160,7 @@ class Interp:
                 return c.v if c is not None and c.v is not None else UNIT
             elif isinstance(term, mp.SwitchInt):
                 v = self.eval_operand(f, frame, term.op)
-                bb = self.switch(v, term)
+                bb = self.switch(v, term, f)
             elif isinstance(term, mp.Assert):
                 v = self.eval_operand(f, frame, term.cond)
                 if isinstance(v, bool):
@@ -1117,7 +1189,7 @@ class Interp:
             else:
                 raise Unsupported("terminator %r in %s" % (getattr(term, "text", term), f.name))
 
-    def switch(self, v, term):
+    def switch(self, v, term, f=None):
         if isinstance(v, bool):
             v = 1 if v else 0
         if isinstance(v, int):
@@ -1127,6 +1199,21 @@ class Interp:
                 for width in (8, 16, 32, 64):
                     if (v + (1 << width)) in term.cases:
                         return term.cases[v + (1 << width)]
+            return term.otherwise
+        if z3.is_expr(v) and z3.is_int(v):
+            # a symbolic discriminant (lazily decided Ordering): one two-way decision per listed case
+            keys = sorted(term.cases)
+            # rustc emits `otherwise: unreachable` for an exhaustive match: the last listed case is then implied
+            exhaustive = False
+            if f is not None and term.otherwise is not None and term.otherwise in f.blocks:
+                st_, tm_ = f.blocks[term.otherwise]
+                exhaustive = not st_ and isinstance(tm_, mp.Unreachable)
+            for i_, k in enumerate(keys):
+                ks = k - 256 if 128 <= k <= 255 else (k - (1 << 64) if k >= (1 << 63) else k)
+                if exhaustive and i_ == len(keys) - 1:
+                    return term.cases[k]
+                if self.decide(v == ks):
+                    return term.cases[k]
             return term.otherwise
         if z3.is_bool(v):
             # boolean switch: cases {0: bbF}, otherwise bbT
@@ -1141,6 +1228,9 @@ class Interp:
         """closure: a closure Struct, or a Cell holding one (FnMut state persists across calls through the Cell)."""
         cell = closure if isinstance(closure, Cell) else Cell(closure)
         closure = cell.v
+        while isinstance(closure, Ref):  # `&F` / `&mut F` where F: Fn*: call through the reference
+            cell = Cell(read_path(closure.cell, closure.path)) if closure.path else closure.cell
+            closure = cell.v
         if isinstance(closure, Struct) and closure.name == "fn-item":
             return self.do_call(closure.fields[0], list(args))
         if not isinstance(closure, Struct) or closure.name not in self.p.closures:
@@ -1296,6 +1386,9 @@ class Interp:
             return Opt(None, False)
         if t.startswith("ZeroSized:"):
             name = t[len("ZeroSized:"):].strip()
+            fm = re.match(r"^(?:for<[^>]*> )?(?:unsafe )?(?:extern \"[^\"]*\" )?fn\(.*\)(?: -> .*?)? \{(.*)\}$", name, re.S)
+            if fm:
+                return Struct("fn-item", [fm.group(1).strip()])  # a function item passed where a closure is expected
             return Struct(name, [])
         if "f64" in t:
             fc = {"EPSILON": 2.220446049250313e-16, "INFINITY": float("inf"), "NEG_INFINITY": float("-inf"),
@@ -1305,6 +1398,9 @@ class Interp:
             if nm in fc:
                 return self.dom.const(fc[nm])
         last = t.split("::")[-1]
+        segs_ = t.split("::")
+        if len(segs_) >= 2 and segs_[-2] in self.p.enums and last in self.p.enums[segs_[-2]]:
+            return EnumVal(segs_[-2], last, self.p.enums[segs_[-2]][last][0])
         if "Ordering" in t and last in ("Less", "Equal", "Greater"):
             return EnumVal("Ordering", last, {"Less": -1, "Equal": 0, "Greater": 1}[last])
         if last in self.p.consts:
@@ -1317,13 +1413,13 @@ class Interp:
         for key in (t, last):
             for f_ in self.p.by_name.get(key, []):
                 if getattr(f_, "is_const_item", False):
-                    cache = self.p.__dict__.setdefault("_const_item_cache", {})
+                    cache = self.__dict__.setdefault("_const_item_cache", {})
                     if f_.name not in cache:
                         cache[f_.name] = self.call_function(f_, [])
                     return clone_value(cache[f_.name])
         cands = [f_ for f_ in self.p.funcs if getattr(f_, "is_const_item", False) and f_.name.split("::")[-1] == last]
         if len(cands) == 1:
-            cache = self.p.__dict__.setdefault("_const_item_cache", {})
+            cache = self.__dict__.setdefault("_const_item_cache", {})
             if cands[0].name not in cache:
                 cache[cands[0].name] = self.call_function(cands[0], [])
             return clone_value(cache[cands[0].name])
@@ -1381,6 +1477,18 @@ class Interp:
                     base = strip_generics(full).rstrip(":").split("::")[-1]
                 except Exception:
                     base = strip_path(full)
+                segs_ = strip_generics(full).rstrip(":").split("::")
+                if len(segs_) >= 2 and segs_[-2] in self.p.enums and base in self.p.enums[segs_[-2]]:
+                    disc, fnames = self.p.enums[segs_[-2]][base]
+                    if rv.kind == "struct" and fnames and sorted(fnames) == sorted(rv.field_names or []):
+                        byname = dict(zip(rv.field_names, ops))
+                        ops = [byname[n] for n in fnames]
+                    if not ops:
+                        return EnumVal(segs_[-2], base, disc)
+                    ev = Struct(base, ops)
+                    ev.disc = disc
+                    ev.enum = segs_[-2]
+                    return ev
                 if "Option" in full and full.rstrip().endswith("None"):
                     return Opt(None, False)
                 if "Result" in full and base in ("Ok", "Err") and len(ops) <= 1:
@@ -1409,7 +1517,7 @@ class Interp:
                 return v
             if rv.kind.startswith("IntToInt") and isinstance(v, int):
                 return v
-            if rv.kind.startswith("PtrToPtr") or "MutToConstPointer" in rv.kind or rv.kind.startswith("PointerCoercion"):
+            if rv.kind.startswith(("PtrToPtr", "Subtype")) or "MutToConstPointer" in rv.kind or rv.kind.startswith("PointerCoercion"):
                 return v
             if rv.kind.startswith("Transmute"):
                 ty = (rv.ty or "").strip()
@@ -1420,8 +1528,8 @@ class Interp:
                 if isinstance(v, (Ref, SliceRef)) and ty.startswith("*"):
                     return v
                 raise Unsupported("cast Transmute of %s to %s" % (type(v).__name__, ty))
-            if rv.kind.startswith("IntToFloat") and isinstance(v, int) and not isinstance(v, bool) and abs(v) <= 2 ** 53:
-                return self.dom.const(float(v))  # exact for |v| <= 2^53
+            if rv.kind.startswith("IntToFloat") and isinstance(v, int) and not isinstance(v, bool):
+                return self.dom.const(float(v))  # Python's int -> float is the correctly rounded (RNE) conversion, like `as f64`
             if rv.kind.startswith("FloatToFloat") and "f64" in (rv.ty or ""):
                 return v
             raise Unsupported("cast %s" % rv.kind)
@@ -1435,6 +1543,8 @@ class Interp:
                 return 0 if v.ok else 1
             if isinstance(v, CFV):
                 return 1 if v.brk else 0
+            if isinstance(v, Struct) and hasattr(v, "disc"):
+                return v.disc
             raise Unsupported("discriminant of %r" % (v,))
         if isinstance(rv, mp.Repeat):
             v = self.eval_operand(f, frame, rv.op)
@@ -1454,6 +1564,11 @@ class Interp:
     def binop(self, op, a, b):
         a = self.auto_deref_num(a)
         b = self.auto_deref_num(b)
+        if ((z3.is_expr(a) and z3.is_int(a)) or (z3.is_expr(b) and z3.is_int(b))) and op in ("Eq", "Ne", "Lt", "Le", "Gt", "Ge"):
+            def sg(x):  # i8 discriminants are printed unsigned in some positions
+                return x - 256 if isinstance(x, int) and 128 <= x <= 255 else x
+            a2, b2 = sg(a), sg(b)
+            return {"Eq": a2 == b2, "Ne": a2 != b2, "Lt": a2 < b2, "Le": a2 <= b2, "Gt": a2 > b2, "Ge": a2 >= b2}[op]
         if isinstance(a, Num) and isinstance(b, Num):
             if op == "Add":
                 return self.dom.add(a, b)
@@ -1545,7 +1660,18 @@ class Interp:
                 write_path(args[0].cell, args[0].path,
                            self.binop(method.split("_")[0].capitalize(), cur, self.auto_deref_num(args[1])))
                 return UNIT
-            f = self.p.find_method(method, args)
+            try:
+                f = self.p.find_method(method, args)
+            except Unsupported:
+                f = None
+                if not args:
+                    # `<X as Default>::default()` and the like: pick the impl by the Self type named in the callee
+                    self_ty = strip_path(strip_generics(m.group(1)))
+                    cands = [g for g in self.p.by_method.get(method, []) if not g.params and strip_path(strip_generics(g.ret or "")) == self_ty]
+                    if len(cands) == 1:
+                        f = cands[0]
+                if f is None:
+                    raise
             if f is None:
                 raise Unsupported("no crate impl for %s with args %r" % (callee[:120], [type(a).__name__ for a in args]))
             return self.call_function(f, args)
